@@ -776,28 +776,46 @@ func sparseCheckStrings() [][]byte {
 			}
 		}
 	}
+	try := func(cval, f *big.Int) bool {
+		num := new(big.Int).Mul(cval, new(big.Int).ModInverse(f, ref.P))
+		num.Mod(num, ref.P)
+		y2 := new(big.Int).Add(num, one)
+		y2.Mod(y2, ref.P)
+		y := new(big.Int).ModSqrt(y2, ref.P)
+		if y == nil {
+			return false
+		}
+		for _, yy := range []*big.Int{y, new(big.Int).Sub(ref.P, y)} {
+			for sgn := 0; sgn < 2; sgn++ {
+				b := ref.ToLE(new(big.Int).Mod(yy, ref.P), 32)
+				b[31] |= byte(sgn) << 7
+				out = append(out, b)
+			}
+		}
+		return true
+	}
 	for pos := 0; pos < 32; pos++ {
 		for _, f := range factors {
-			found := 0
-			for v := int64(1); v < 256 && found < 1; v++ {
+			for v := int64(1); v < 256; v++ {
 				if pos == 31 && v >= 128 {
 					break
 				}
-				cval := new(big.Int).Lsh(big.NewInt(v), uint(8*pos))
-				num := new(big.Int).Mul(cval, new(big.Int).ModInverse(f, ref.P))
-				num.Mod(num, ref.P)
-				y2 := new(big.Int).Add(num, one)
-				y2.Mod(y2, ref.P)
-				y := new(big.Int).ModSqrt(y2, ref.P)
-				if y == nil {
-					continue
+				if try(new(big.Int).Lsh(big.NewInt(v), uint(8*pos)), f) {
+					break
 				}
-				found++
-				for _, yy := range []*big.Int{y, new(big.Int).Sub(ref.P, y)} {
-					for sgn := 0; sgn < 2; sgn++ {
-						b := ref.ToLE(new(big.Int).Mod(yy, ref.P), 32)
-						b[31] |= byte(sgn) << 7
-						out = append(out, b)
+			}
+		}
+	}
+	// two-byte values: the same byte at positions i and i + 4k (they cancel when a zero test folds
+	// 32- or 64-bit words with xor instead of or)
+	for i := 0; i < 32; i++ {
+		for j := i + 4; j < 32; j += 4 {
+			for _, f := range factors {
+				for v := int64(1); v < 128; v++ {
+					cval := new(big.Int).Lsh(big.NewInt(v), uint(8*i))
+					cval.Add(cval, new(big.Int).Lsh(big.NewInt(v), uint(8*j)))
+					if try(cval, f) {
+						break
 					}
 				}
 			}
